@@ -1,20 +1,91 @@
-PROP = {
-    "suites": ["c19", "c19lists", "c19paths"],
-    "clauses": {1: "the discovery document advertises an endpoint that is not served at that URL under one of its methods",
-                2: "a route is served that the discovery document does not advertise at that URL (suite c19paths: an optional endpoint that is absent from the metadata answers at its overridden or default path, or an endpoint advertised at its overridden path also answers at the default path / outside the prefix; operation = number of the probe in Ops)",
-                3: "a capability that is not advertised (grant type, endpoint, response type, response mode, PKCE method, direct request under require_pushed_authorization_requests) was accepted",
-                4: "an advertised grant type was answered unsupported_grant_type, or an advertised endpoint answered not found",
-                5: "a client-authentication signing algorithm advertised for an endpoint (<endpoint>_auth_signing_alg_values_supported) was refused there (authn probe number = operation)",
-                6: "a JWT-based client authentication method is advertised for an endpoint (<endpoint>_auth_methods_supported) with no signing algorithm at all, and every assertion is refused there (authn probe number = operation)",
-                7: "an assertion signed with an algorithm that is not advertised for the endpoint (or is not the one the client registered) authenticated the client (authn probe number = operation)",
-                8: "a client registered for advertised encryption algorithms (<artifact>_encryption_alg/enc_values_supported) got an artifact that is not encrypted with them (artifact probe number = operation - 500)",
-                9: "no encryption algorithm is advertised for an artifact, or the client asked for none, yet it came encrypted (artifact probe number = operation - 500)",
-                10: "a client registered for an advertised signing algorithm got an artifact signed with another one (artifact probe number = operation - 500)",
-                11: "authorization_signing_alg_values_supported is advertised but the JWT response modes are refused (artifact probe number = operation - 500)",
-                12: "a JWT-secured authorization response was issued although authorization_signing_alg_values_supported is absent (artifact probe number = operation - 500)"},
-    "title": "Discovery metadata matches what the provider serves and accepts",
-    "text": "Model: Discovery.v gives the discovery document (every member of openIDConfiguration with its omitempty rule) and the route table of Provider.Handler() as functions of the configuration built by Config.build from the option list; Config2.v/Discovery2.v make the client-authentication METHOD lists of the token / introspection / revocation endpoints, the derived private_key_jwt / client_secret_jwt algorithm lists and every signing / key-encryption / content-encryption ALGORITHM list (ID token, userinfo, JAR, JARM, DPoP, CIBA request objects) inputs: build2 wraps Config.build with one constructor per list-taking option of option.go (appendIfNotIn, the refusals of 'none' / HS*, the rune loop that makes WithSecretJWTSignatureAlgs refuse everything) and the list side of setDefaults, and gives the 20 list members of the document with the guard under which oidcConfig assigns each and the run-time gates that read the same lists (clientAuthnSigAlgs, extractID + authnSigAlgs in front of jwt.ParseSigned, the Enc flags in MakeIDToken / userinfo / createJARMResponse). Theorems (Props/C19.v, 41, all closed): the 21 of the flag side (advertised_served / mtls_aliases_served / served_advertised, endpoint_flags_from_options, endpoint_enabled_advertised_and_served, <endpoint>_disabled_absent_and_refused for PAR, CIBA, introspection, revocation, DCR, grant_type_*, response_types_follow_grants, response_modes_follow_jarm, <response type|response mode|PKCE method>_not_advertised_refused, accepted_values_are_listed, binding_flags_match_behaviour, require_pushed_requests_enforced) and 11 about the lists: list_member_present_iff (every config2, every list member: present iff guard and non-empty list; element advertised iff guard and in the list; it is in document2), list_flags_from_options and list_values_from_options (for all option lists: each guard = existsb of its enabling options, each list = appendIfNotIn of the LAST option that writes it or the setDefaults default), enabled_list_members_present (an enabled list is never empty, so the member is present iff its guard holds - what an unguarded *_encryption_enc_values_supported violates), unguarded_list_members_present, advertised_jwt_method_has_algorithms (a JWT-based method advertised at endpoint E => the allowed-algorithm list for E is non-empty, an algorithm is advertised for E and an assertion signed with it is accepted - what skipping an endpoint's methods in setDefaults violates), advertised_auth_algorithm_accepted / accepted_auth_algorithm_advertised, advertised_encryption_is_applied / unadvertised_encryption_absent, refused_list_arguments. Correspondence: suite c19 (no option, every single option, all pairs of the 22 feature-enabling options, random larger subsets under the three profiles with random path prefixes: document member by member, every endpoint path under GET/POST(/PUT/DELETE), ~30 capability probes through the handler model) and suite c19lists (option lists over the list options: 2x2 of every list option with its enabling option, JWT-based methods at ONE endpoint only x the state of the other two endpoints x explicit / default algorithms, arguments the options refuse, random combinations; for each the REAL provider is built, the document is compared with document2 member by member, and the lists are PROBED: valid private_key_jwt / client_secret_jwt assertions signed with RS256, PS256, ES256, ES384 / HS256, HS384 at /token, /introspect and /revoke by clients registered with the method at exactly that endpoint (with and without a registered algorithm), and 10 clients registered with signing / key-encryption / content-encryption algorithms obtaining an ID token, a userinfo response and a JWT-secured authorization response, classified as absent / plain / signed(alg) / encrypted(alg, enc)); every answer is compared with the gates of Discovery2.v and the property is evaluated on the observations alone (mon_c19l: advertised algorithm accepted, advertised method has an accepted algorithm, non-advertised refused, advertised encryption applied, none advertised -> not encrypted), in Coq and - to name the metadata member and the probe in the VIOLATION - by the same rules in the harness (meta.Findings, signature c19lists:<member>:<verdict>). meta.json's input_distribution carries the covered option matrix. ENDPOINT PATH OVERRIDES: Routes.v makes the nine With...Endpoint options of option.go (jwks, token, authorize, par, dcr, userinfo, introspection, revocation, ciba; the well-known path has no option) inputs: popt = an option of Config.v or a path option with its argument, build3 = provider.New on the list in order (a path option assigns its Endpoint* field unconditionally and touches nothing else; setDefaults fills the default path where the field is empty - for dcr / par / introspection / revocation / ciba only under the feature flag), routes3 / serve3 = the route table of Provider.Handler() (pattern = METHOD prefix ++ path, each optional route under its *IsEnabled flag, the callback and registered-client sub-resources below EndpointAuthorize / EndpointDCR) and its dispatch, member3 = the endpoint members of oidcConfig (issuer ++ prefix ++ path, each optional member under the same flag) and mtls_endpoint_aliases. 9 theorems, for all option lists, paths and prefixes: route_served_iff_feature_enabled (a route with the handler of e is registered iff the flag of e is set, and the flag = existsb of the ENABLING options - path_options_enable_nothing: a With...Endpoint option enables nothing), endpoint_path_from_options (path = the LAST override, the default when none / empty, and only filled in when enabled), enabled_advertised_and_served_at_override (member = issuer ++ prefix ++ that path, routed there under every method, answered there when patterns do not overlap (routes_ok), and the handler answers NOWHERE else - not at the default path once overridden), disabled_absent_and_not_routed_under_overrides (every configuration record: member absent, no route with that handler, no request reaches it, a path free of the other endpoints' patterns gets the mux's 404), advertised_served_under_overrides, mtls_aliases_follow_overrides, served_advertised_under_overrides and dispatched_request_is_advertised (whatever a request is dispatched to is advertised at the requested URL); Examples in C19PathsProofs.v (WithPAREndpoint without WithPAR: no member, no route, nothing served at /custom/par or /par, with and without prefix; both orders when enabled; an empty last override gives the default back; all nine overridden at once satisfy routes_ok). Correspondence: suite c19paths - a DETERMINISTIC matrix, the same for every seed (365 lists: every endpoint x override {none, /custom/<e>, empty string, the default path} x feature {off, on} (always-on endpoints: on) x WithPathPrefix {no, /auth} x order {override after / before the enabling option, prefix first / last}; WithPARRequired; all 36 pairs of overrides x both features on / off / mixed x prefix; the same endpoint overridden twice (last wins, empty last, empty first, default last); all nine at once x features {all, none, alternating} x prefix x WithMTLS; mTLS x each override enabled / not enabled) plus random lists (40 quick, 2500 thorough: random enablers, 0-2 overrides per endpoint from {custom, alternative, empty, default, /<e>2}, random prefix, mTLS, shuffled). For each list the REAL provider is built with the options in that order, its document fetched, and the mux of Handler() probed with real requests (GET / POST, DCR also PUT / DELETE) at EVERY overridden path and EVERY default path, under the prefix and without it, plus the callback / registered-client sub-resources (~50-130 probes per list); a pushed-authorization path that answers gets a VALID pushed request with client credentials (201 + request_uri recorded). Case files run build3 / member3 / serve3 on the same list (corr: issuer, the nine endpoint members and the aliases object; served / not served of every probe; accepted / refused of every pushed request; routes_ok of the generated list) and evaluate on the observations alone (mon_c19p): clause 1 advertised URL served under every method of the endpoint, clause 2 every served probe is the advertised URL of a member (or below it for sub-resources), clause 3 / 4 a pushed request is accepted exactly at the advertised pushed_authorization_request_endpoint. The harness evaluates the same rule with the option list to name the member and the probe (meta.Findings, signatures c19paths:<endpoint>:served-but-not-enabled / served-not-advertised / served-at-default-despite-override / served-elsewhere-than-advertised / advertised-not-served / advertised-but-not-enabled / enabled-not-advertised, c19paths:par:push-accepted-elsewhere-than-advertised / advertised-push-refused).",
-    "note": "Endpoint path overrides are options of the model in suite c19paths / Routes.v only (suites c19 and c19lists keep the default paths); there the non-endpoint members of the document are not compared (c19 / c19lists do) and the profile is openid. Out of the scope of c19paths, explicitly: (a) override paths that make the patterns of two endpoints overlap (two endpoints given the same path, a path below EndpointAuthorize/ or EndpointDCR/): ServeMux panics on conflicting registrations at Handler() or prefers the more specific pattern where the model takes the first match - routes_ok is the stated hypothesis of the serve3 theorems, the generator produces only lists that satisfy it and corr = 40000 would flag a generated list that does not; (b) paths that are not well-formed ServeMux paths (no leading slash, a trailing slash = subtree pattern, braces = wildcards): the embedder's strings are passed to ServeMux verbatim, the model reads them as literal paths; (c) the mTLS aliases are compared with the model but not probed (same mux, another host). Subject types, claim types, CIBA delivery modes, ACRs, display values, claims and authorization-detail types stay constants of the harness. The list options are varied in suite c19lists only (fixed grants: authorization_code, implicit, client_credentials; profile openid); suite c19 keeps the harness's fixed lists. JAR / DPoP / CIBA-JAR signing algorithm lists and the JAR encryption lists are compared in the document and covered by the theorems but not probed with signed request objects / proofs (C07 / C06 probe those with the fixed ES256). The DCR gates that read the same lists are C12's (Dcr.validate over dcfg). DCR has no handler model here (route table and metadata only); the jwt-bearer grant is probed on the Go side only. advertised_accepted is proved as a theorem for endpoints (routing), for client_credentials, for client-authentication algorithms and for encryption; for response types/modes/PKCE methods the theorem is that the gate consults exactly the advertised list (accepted_values_are_listed) and acceptance of whole flows is shown by the correspondence runs. Not flagged, reported: (1) userinfo is only encrypted for clients that also asked for a SIGNED userinfo response, and there is no default userinfo signing algorithm (WithUserInfoEncryption without WithUserInfoSignatureAlgs advertises userinfo_encryption_alg_values_supported that no registration accepted by DCR can use); (2) a client with authorization_signed_response_alg gets every authorization response, errors included, as a signed JWT even when JARM is disabled and authorization_signing_alg_values_supported is absent (DCR accepts that registration when JARM is disabled); (3) WithSecretJWTSignatureAlgs refuses every argument, so client_secret_jwt can only use the default HS256.",
-    "technique": "Coq proof (decision rules over all configurations / option lists; route-table case analysis) tied to the code by differential correspondence on generated configurations",
-    "design_ref": "DESIGN.md section 6, C19",
-}
+PROP = {'suites': ['c19', 'c19lists', 'c19paths'],
+ 'clauses': {1: 'the discovery document advertises an endpoint that is not served at that URL under one of its methods',
+             2: 'a route is served that the discovery document does not advertise at that URL (suite c19paths: an optional endpoint that is absent from the metadata answers at its overridden or '
+                'default path, or an endpoint advertised at its overridden path also answers at the default path / outside the prefix; operation = number of the probe in Ops)',
+             3: 'a capability that is not advertised (grant type, endpoint, response type, response mode, PKCE method - named in the authorization request, or applied at the token endpoint: a code '
+                'whose request carried a challenge was redeemed although (challenge, verifier) is an exchange under no advertised method -, direct request under '
+                'require_pushed_authorization_requests) was accepted',
+             4: 'an advertised grant type was answered unsupported_grant_type, an advertised endpoint answered not found, or a code exchange under an advertised PKCE method (named, or left out when '
+                'a single method is advertised) was refused while the same exchange naming the method succeeded',
+             5: 'a client-authentication signing algorithm advertised for an endpoint (<endpoint>_auth_signing_alg_values_supported) was refused there (authn probe number = operation)',
+             6: 'a JWT-based client authentication method is advertised for an endpoint (<endpoint>_auth_methods_supported) with no signing algorithm at all, and every assertion is refused there '
+                '(authn probe number = operation)',
+             7: 'an assertion signed with an algorithm that is not advertised for the endpoint (or is not the one the client registered) authenticated the client (authn probe number = operation)',
+             8: 'a client registered for advertised encryption algorithms (<artifact>_encryption_alg/enc_values_supported) got an artifact that is not encrypted with them (artifact probe number = '
+                'operation - 500)',
+             9: 'no encryption algorithm is advertised for an artifact, or the client asked for none, yet it came encrypted (artifact probe number = operation - 500)',
+             10: 'a client registered for an advertised signing algorithm got an artifact signed with another one (artifact probe number = operation - 500)',
+             11: 'authorization_signing_alg_values_supported is advertised but the JWT response modes are refused (artifact probe number = operation - 500)',
+             12: 'a JWT-secured authorization response was issued although authorization_signing_alg_values_supported is absent (artifact probe number = operation - 500)'},
+ 'title': 'Discovery metadata matches what the provider serves and accepts',
+ 'text': 'Model: Discovery.v gives the discovery document (every member of openIDConfiguration with its omitempty rule) and the route table of Provider.Handler() as functions of the configuration '
+         'built by Config.build from the option list; Config2.v/Discovery2.v make the client-authentication METHOD lists of the token / introspection / revocation endpoints, the derived '
+         'private_key_jwt / client_secret_jwt algorithm lists and every signing / key-encryption / content-encryption ALGORITHM list (ID token, userinfo, JAR, JARM, DPoP, CIBA request objects) '
+         "inputs: build2 wraps Config.build with one constructor per list-taking option of option.go (appendIfNotIn, the refusals of 'none' / HS*, the rune loop that makes WithSecretJWTSignatureAlgs "
+         'refuse everything) and the list side of setDefaults, and gives the 20 list members of the document with the guard under which oidcConfig assigns each and the run-time gates that read the '
+         'same lists (clientAuthnSigAlgs, extractID + authnSigAlgs in front of jwt.ParseSigned, the Enc flags in MakeIDToken / userinfo / createJARMResponse). Theorems (Props/C19.v, 41, all closed): '
+         'the 21 of the flag side (advertised_served / mtls_aliases_served / served_advertised, endpoint_flags_from_options, endpoint_enabled_advertised_and_served, '
+         '<endpoint>_disabled_absent_and_refused for PAR, CIBA, introspection, revocation, DCR, grant_type_*, response_types_follow_grants, response_modes_follow_jarm, <response type|response '
+         'mode|PKCE method>_not_advertised_refused, accepted_values_are_listed, binding_flags_match_behaviour, require_pushed_requests_enforced) and 11 about the lists: list_member_present_iff '
+         '(every config2, every list member: present iff guard and non-empty list; element advertised iff guard and in the list; it is in document2), list_flags_from_options and '
+         'list_values_from_options (for all option lists: each guard = existsb of its enabling options, each list = appendIfNotIn of the LAST option that writes it or the setDefaults default), '
+         'enabled_list_members_present (an enabled list is never empty, so the member is present iff its guard holds - what an unguarded *_encryption_enc_values_supported violates), '
+         'unguarded_list_members_present, advertised_jwt_method_has_algorithms (a JWT-based method advertised at endpoint E => the allowed-algorithm list for E is non-empty, an algorithm is '
+         "advertised for E and an assertion signed with it is accepted - what skipping an endpoint's methods in setDefaults violates), advertised_auth_algorithm_accepted / "
+         'accepted_auth_algorithm_advertised, advertised_encryption_is_applied / unadvertised_encryption_absent, refused_list_arguments. Correspondence: suite c19 (no option, every single option, '
+         'all pairs of the 22 feature-enabling options, random larger subsets under the three profiles with random path prefixes: document member by member, every endpoint path under '
+         'GET/POST(/PUT/DELETE), ~30 capability probes through the handler model) and suite c19lists (option lists over the list options: 2x2 of every list option with its enabling option, JWT-based '
+         'methods at ONE endpoint only x the state of the other two endpoints x explicit / default algorithms, arguments the options refuse, random combinations; for each the REAL provider is built, '
+         'the document is compared with document2 member by member, and the lists are PROBED: valid private_key_jwt / client_secret_jwt assertions signed with RS256, PS256, ES256, ES384 / HS256, '
+         'HS384 at /token, /introspect and /revoke by clients registered with the method at exactly that endpoint (with and without a registered algorithm), and 10 clients registered with signing / '
+         'key-encryption / content-encryption algorithms obtaining an ID token, a userinfo response and a JWT-secured authorization response, classified as absent / plain / signed(alg) / '
+         'encrypted(alg, enc)); every answer is compared with the gates of Discovery2.v and the property is evaluated on the observations alone (mon_c19l: advertised algorithm accepted, advertised '
+         'method has an accepted algorithm, non-advertised refused, advertised encryption applied, none advertised -> not encrypted), in Coq and - to name the metadata member and the probe in the '
+         "VIOLATION - by the same rules in the harness (meta.Findings, signature c19lists:<member>:<verdict>). meta.json's input_distribution carries the covered option matrix. ENDPOINT PATH "
+         'OVERRIDES: Routes.v makes the nine With...Endpoint options of option.go (jwks, token, authorize, par, dcr, userinfo, introspection, revocation, ciba; the well-known path has no option) '
+         'inputs: popt = an option of Config.v or a path option with its argument, build3 = provider.New on the list in order (a path option assigns its Endpoint* field unconditionally and touches '
+         'nothing else; setDefaults fills the default path where the field is empty - for dcr / par / introspection / revocation / ciba only under the feature flag), routes3 / serve3 = the route '
+         'table of Provider.Handler() (pattern = METHOD prefix ++ path, each optional route under its *IsEnabled flag, the callback and registered-client sub-resources below EndpointAuthorize / '
+         'EndpointDCR) and its dispatch, member3 = the endpoint members of oidcConfig (issuer ++ prefix ++ path, each optional member under the same flag) and mtls_endpoint_aliases. 9 theorems, for '
+         'all option lists, paths and prefixes: route_served_iff_feature_enabled (a route with the handler of e is registered iff the flag of e is set, and the flag = existsb of the ENABLING options '
+         '- path_options_enable_nothing: a With...Endpoint option enables nothing), endpoint_path_from_options (path = the LAST override, the default when none / empty, and only filled in when '
+         'enabled), enabled_advertised_and_served_at_override (member = issuer ++ prefix ++ that path, routed there under every method, answered there when patterns do not overlap (routes_ok), and '
+         'the handler answers NOWHERE else - not at the default path once overridden), disabled_absent_and_not_routed_under_overrides (every configuration record: member absent, no route with that '
+         "handler, no request reaches it, a path free of the other endpoints' patterns gets the mux's 404), advertised_served_under_overrides, mtls_aliases_follow_overrides, "
+         'served_advertised_under_overrides and dispatched_request_is_advertised (whatever a request is dispatched to is advertised at the requested URL); Examples in C19PathsProofs.v '
+         '(WithPAREndpoint without WithPAR: no member, no route, nothing served at /custom/par or /par, with and without prefix; both orders when enabled; an empty last override gives the default '
+         'back; all nine overridden at once satisfy routes_ok). Correspondence: suite c19paths - a DETERMINISTIC matrix, the same for every seed (365 lists: every endpoint x override {none, '
+         '/custom/<e>, empty string, the default path} x feature {off, on} (always-on endpoints: on) x WithPathPrefix {no, /auth} x order {override after / before the enabling option, prefix first / '
+         'last}; WithPARRequired; all 36 pairs of overrides x both features on / off / mixed x prefix; the same endpoint overridden twice (last wins, empty last, empty first, default last); all nine '
+         'at once x features {all, none, alternating} x prefix x WithMTLS; mTLS x each override enabled / not enabled) plus random lists (40 quick, 2500 thorough: random enablers, 0-2 overrides per '
+         'endpoint from {custom, alternative, empty, default, /<e>2}, random prefix, mTLS, shuffled). For each list the REAL provider is built with the options in that order, its document fetched, '
+         'and the mux of Handler() probed with real requests (GET / POST, DCR also PUT / DELETE) at EVERY overridden path and EVERY default path, under the prefix and without it, plus the callback / '
+         'registered-client sub-resources (~50-130 probes per list); a pushed-authorization path that answers gets a VALID pushed request with client credentials (201 + request_uri recorded). Case '
+         'files run build3 / member3 / serve3 on the same list (corr: issuer, the nine endpoint members and the aliases object; served / not served of every probe; accepted / refused of every pushed '
+         'request; routes_ok of the generated list) and evaluate on the observations alone (mon_c19p): clause 1 advertised URL served under every method of the endpoint, clause 2 every served probe '
+         'is the advertised URL of a member (or below it for sub-resources), clause 3 / 4 a pushed request is accepted exactly at the advertised pushed_authorization_request_endpoint. The harness '
+         'evaluates the same rule with the option list to name the member and the probe (meta.Findings, signatures c19paths:<endpoint>:served-but-not-enabled / served-not-advertised / '
+         'served-at-default-despite-override / served-elsewhere-than-advertised / advertised-not-served / advertised-but-not-enabled / enabled-not-advertised, '
+         'c19paths:par:push-accepted-elsewhere-than-advertised / advertised-push-refused). , stored_pkce_methods_advertised (in every reachable state the code_challenge_method recorded in a stored '
+         'session is absent or advertised), pkce_exchange_only_under_advertised_method (over ALL histories the token endpoint completes a code exchange only under an advertised PKCE method - the '
+         'named one or, for a challenge sent without method, the configured default, which is advertised), unadvertised_pkce_method_completes_no_exchange , among them every PKCE method END TO END - '
+         'authorization request naming S256 / plain / an unknown method or leaving the method out with the challenge made for S256 or verbatim, then the redemption of the code with the pre-image and '
+         'with the challenge string - under a matrix of PKCE method lists: each method alone, both with either default, optional and required',
+ 'note': 'Endpoint path overrides are options of the model in suite c19paths / Routes.v only (suites c19 and c19lists keep the default paths); there the non-endpoint members of the document are not '
+         'compared (c19 / c19lists do) and the profile is openid. Out of the scope of c19paths, explicitly: (a) override paths that make the patterns of two endpoints overlap (two endpoints given '
+         'the same path, a path below EndpointAuthorize/ or EndpointDCR/): ServeMux panics on conflicting registrations at Handler() or prefers the more specific pattern where the model takes the '
+         'first match - routes_ok is the stated hypothesis of the serve3 theorems, the generator produces only lists that satisfy it and corr = 40000 would flag a generated list that does not; (b) '
+         "paths that are not well-formed ServeMux paths (no leading slash, a trailing slash = subtree pattern, braces = wildcards): the embedder's strings are passed to ServeMux verbatim, the model "
+         'reads them as literal paths; (c) the mTLS aliases are compared with the model but not probed (same mux, another host). Subject types, claim types, CIBA delivery modes, ACRs, display '
+         'values, claims and authorization-detail types stay constants of the harness. The list options are varied in suite c19lists only (fixed grants: authorization_code, implicit, '
+         "client_credentials; profile openid); suite c19 keeps the harness's fixed lists. JAR / DPoP / CIBA-JAR signing algorithm lists and the JAR encryption lists are compared in the document and "
+         "covered by the theorems but not probed with signed request objects / proofs (C07 / C06 probe those with the fixed ES256). The DCR gates that read the same lists are C12's (Dcr.validate "
+         'over dcfg). DCR has no handler model here (route table and metadata only); the jwt-bearer grant is probed on the Go side only. advertised_accepted is proved as a theorem for endpoints '
+         '(routing), for client_credentials, for client-authentication algorithms and for encryption; for response types/modes/PKCE methods the theorem is that the gate consults exactly the '
+         'advertised list (accepted_values_are_listed) and acceptance of whole flows is shown by the correspondence runs. Not flagged, reported: (1) userinfo is only encrypted for clients that also '
+         'asked for a SIGNED userinfo response, and there is no default userinfo signing algorithm (WithUserInfoEncryption without WithUserInfoSignatureAlgs advertises '
+         'userinfo_encryption_alg_values_supported that no registration accepted by DCR can use); (2) a client with authorization_signed_response_alg gets every authorization response, errors '
+         'included, as a signed JWT even when JARM is disabled and authorization_signing_alg_values_supported is absent (DCR accepts that registration when JARM is disabled); (3) '
+         'WithSecretJWTSignatureAlgs refuses every argument, so client_secret_jwt can only use the default HS256.',
+ 'technique': 'Coq proof (decision rules over all configurations / option lists; route-table case analysis) tied to the code by differential correspondence on generated configurations',
+ 'design_ref': 'DESIGN.md section 6, C19'}
